@@ -73,6 +73,7 @@ def _setup0(scn):
         elif scn == 6:
             fs.put_dir("/p/workspace/" + refs.canon_id(NEW))
         job = s.pr["/p"].open_job(OLD)
+        s.job = job
         if scn == 7:
             op = lambda: job.update_statepoint({"a": 1}, overwrite=True)
         else:
@@ -179,6 +180,14 @@ def _case(scn, mode, k, t, e, k2=None, rev=False, reg=0, cache=False):
         fs.revive()
         post = _view(fs)
         problems = []
+        # a handled error leaves the HANDLE describing the job it points to: the next edit through it must not smuggle in the failed change
+        job = getattr(s, "job", None)
+        if job is not None and exc is not None and not crashed and scn in (4, 5, 6, 7):
+            try:
+                if refs.canon_id(job.statepoint()) != job.id:
+                    problems.append(("after the failed state point change the handle's state point does not hash to its id", job.statepoint(), job.id))
+            except Exception:  # noqa
+                pass
         # reference success state (same scenario, no fault) -- only needed when the call returned normally under a fault
         old_id, new_id = refs.canon_id(OLD), refs.canon_id(NEW)
         affected = {old_id, new_id}
